@@ -522,6 +522,17 @@ class Gen:
                 self.add("mp %s -1 1 %s" % (hx(b"multipart/form-data" + s), hx(b"--x--\r\n")), kind="mp-mal")
 
     # ---- urlencoded / other bodies
+    # ---- configured limits: KiB in the settings -> bytes in request().limits(), for every int the settings accept
+    def limit_cases(self, n):
+        rng = self.rng
+        vals = [0, 1, 1024, 65536, 2097151, 2097152, 2097153, 4194304, 6291456, 2147483647, "-"]
+        pairs = [(a, b) for a in vals for b in (1024, "-")] + [(1024, b) for b in vals] + [(2097152, 4194304), (2147483647, 2147483647)]
+        pairs += [(rng.randrange(0, 1 << 31), rng.randrange(0, 1 << 31)) for _ in range(n)]
+        for a, b in pairs:
+            ea = 1024 * 1024 if a == "-" else a * 1024
+            eb = 64 * 1024 * 1024 if b == "-" else b * 1024
+            self.add(f"lim {a} {b}", kind="lim", expect=f"limits {ea} {eb}")
+
     def form_cases(self, n):
         rng = self.rng
         ct = b"application/x-www-form-urlencoded"
@@ -639,6 +650,7 @@ def main():
             g.malformed_cases(2500)
             g.ct_cases(4000)
             g.form_cases(800)
+            g.limit_cases(60)
         else:
             g.multipart_cases(36, 6, big_size=40000)
             g.readback_cases(25)
@@ -647,6 +659,7 @@ def main():
             g.malformed_cases(350)
             g.ct_cases(500)
             g.form_cases(120)
+            g.limit_cases(12)
 
     if hbin and os.path.exists(model) and g.cases:
         cases, meta = g.cases, g.meta
@@ -712,6 +725,8 @@ def main():
                 toks, _, files = o.partition(" F ")
                 if files != want or not toks.split() or not toks.split()[-1].startswith("5/"):
                     bad.append((k, "multipart_parser did not return the encoded parts / eof"))
+            if kind == "lim" and o != m["expect"]:
+                bad.append((k, "configured limit (KiB) is not the byte limit a request starts with: expected `%s`" % m["expect"]))
             if kind in ("rq-wf", "rq-long", "rq-short", "rq-form-short", "rq-form-limit") and m.get("expect"):
                 if head != m["expect"]:
                     bad.append((k, f"expected `{m['expect'][:120]}`"))
